@@ -397,3 +397,16 @@ def fresh_aggregator_locks():
         importlib.reload(A)
     if wrapped:
         sched.install()
+
+
+def limit_memory(gib: float = 8.0):
+    """Cap the address space of a shard worker: a runaway allocation in a broken tree (e.g. a lookup
+    table sized by a corrupted label) becomes a MemoryError inside the library call - which the checks
+    report like any other exception - instead of exhausting the sandbox."""
+    import resource
+
+    lim = int(gib * (1 << 30))
+    try:
+        resource.setrlimit(resource.RLIMIT_AS, (lim, lim))
+    except (ValueError, OSError):
+        pass
